@@ -25,7 +25,8 @@ RULE = ('AES: two designs per run, each built by ONE shared AES() object whose u
         'take at least two values (AES pairs: always; PRNG schedules: at least one ready pulse).')
 IMPORTS = ('From Coq Require Import ZArith List.\nImport ListNotations.\nOpen Scope Z_scope.\n'
            'From PyRTL Require Import Lib.AesSpec Lib.AesModel Lib.PrngSpec Lib.PrngModel.\n')
-COQ_TARGETS = ['theories/Lib/AesModel.vo', 'theories/Lib/PrngModel.vo']
+COQ_TARGETS = ['theories/Lib/AesModel.vo', 'theories/Lib/PrngModel.vo', 'theories/Lib/PrngGenRun.vo']
+IMPORTS_GEN = IMPORTS + 'From PyRTL Require Import Lib.PrngGenBase Gen.PrngFrag Lib.PrngGenRun.\n'
 TRUSTED = ['coq/theories/Lib/AesSpec.v: FIPS-197 AES-128 written from the standard (xtime, inverse, affine map, '
            'ShiftRows, MixColumns, KeyExpansion, Cipher, InvCipher); reproduces Appendix A.1, B and C.1 by vm_compute',
            'coq/theories/Lib/PrngSpec.v: published LFSR / xoroshiro128+ / Trivium single steps and the documented '
@@ -738,6 +739,7 @@ def check_prngs(ctx):
         rng = ctx.sub_rng('prng', *cfg)
         cases.append((cfg, None if style == 'idle' else prng_schedule(rng, kind, bw, bpc, style)))
     exprs_m, exprs_s = [], []
+    exprs_g = {}        # case index -> expression over the step functions REGENERATED from prngs.py
     impl = []
     for ci, (cfg, rle) in enumerate(cases):
         kind, bw, bpc, style, rep = cfg
@@ -763,6 +765,9 @@ def check_prngs(ctx):
                 tr.append(got)
                 rf.append(list(want))
         impl.append((tr, rf))
+        if style in ('idle', 'suite-vectors') or (style == 'protocol' and (kind != 'triv' or bpc >= 16)) or ctx.tier != 'quick':
+            exprs_g[ci] = {'lfsr': 'g_lfsr_sum %d %s' % (bw, quads(rle)), 'xoro': 'g_xo_sum %d %s' % (bw, quads(rle)),
+                           'triv': 'g_tv_sum %d %d %s' % (bw, bpc or 0, quads(rle))}[kind]
         if kind == 'lfsr':
             exprs_m.append('lfsr_sum %d %s' % (bw, quads(rle)))
             exprs_s.append('s_lfsr_sum %d %s' % (bw, quads(rle)))
@@ -774,7 +779,14 @@ def check_prngs(ctx):
             exprs_s.append('s_tv_sum %d %d %s' % (bw, bpc, quads(rle)))
     res_m = ctx.coq_eval(exprs_m, IMPORTS, tag='prngm', shard=6, jobs=12)
     res_s = ctx.coq_eval(exprs_s, IMPORTS, tag='prngs', shard=6, jobs=12)
-    for (cfg, rle), (tr, rf), rm, rs in zip(cases, impl, res_m, res_s):
+    gkeys = sorted(exprs_g)
+    try:
+        res_g = dict(zip(gkeys, ctx.coq_eval([exprs_g[k] for k in gkeys], IMPORTS_GEN, tag='prngg', shard=6, jobs=12)))
+    except Exception as e:  # Gen/PrngFrag.v untranslatable or no longer type-checks
+        res_g = {}
+        ctx.model_mismatch('the step functions regenerated from prngs.py (Gen/PrngFrag.v) cannot be evaluated: %s' % str(e)[-500:], {})
+    ctx.count('prng-regenerated-step-runs', 'evaluated', len(res_g))
+    for ci, ((cfg, rle), (tr, rf), rm, rs) in enumerate(zip(cases, impl, res_m, res_s)):
         kind, bw, bpc, style, rep = cfg
         rows = expand(rle)
         nready = sum(1 for x in tr if kind != 'lfsr' and x[0]) if kind != 'lfsr' else sum(1 for r in rows if r[1])
@@ -804,6 +816,10 @@ def check_prngs(ctx):
         elif sum_impl != rs:
             ctx.spec_violation('prng:%s:coq-spec' % kind, '%s(bitwidth=%d%s): trace summary differs from Lib/PrngSpec.v' % (
                 kind, bw, '' if bpc is None else ', bits_per_cycle=%d' % bpc), dict(rep_d, spec=rs, implementation=sum_impl))
+        if ci in res_g and sum_impl != res_g[ci]:
+            ctx.model_mismatch('%s circuit and the step function REGENERATED from prngs.py (Gen/PrngFrag.v) disagree (%s): '
+                               'the translator py/genfrag_C18prng.py mis-reads the source' % (kind, cfg),
+                               dict(rep_d, regenerated=res_g[ci], implementation=sum_impl))
         if sum_impl != rm:
             ctx.model_mismatch('%s circuit and Lib/PrngModel.v disagree (%s) (trace summary: [digest, cycles, last], '
                                'ready rising edges [cycle, rand])' % (kind, cfg), dict(rep_d, model=rm, implementation=sum_impl))
@@ -814,8 +830,20 @@ def check_prngs(ctx):
                     ctx.spec_violation('prng:triv:vector', 'Trivium vector %d: got %s expected ready with %#x' % (vi, tr[t], want), rep_d)
 
 
+def ensure_harness_targets():
+    """the proof-free files the search evaluates must exist even when a proof (or the regenerated
+    Gen/PrngFrag.v) no longer builds: make them on their own, dependency-exact, under the build lock"""
+    import runner
+    for t in COQ_TARGETS:
+        try:
+            runner.build([t])
+        except Exception:
+            pass
+
+
 def run(ctx):
     import time
+    ensure_harness_targets()
     for name, f in (('tables', lambda: check_tables(ctx)), ('aes-enc-design', lambda: check_aes_enc_design(ctx)),
                     ('aes-dec-design', lambda: check_aes_dec_design(ctx)),
                     ('prngs', lambda: check_prngs(ctx))):
